@@ -167,9 +167,9 @@ func c04TypeSweeps(r *core.Run) {
 			if L < 0 {
 				continue
 			}
-			guard("signature.ReadSignature", code, fmt.Sprintf("len=%d", L), func() { signature.ReadSignature(data600[:L], code) })
-			guard("signature.NewSignature", code, fmt.Sprintf("len=%d", L), func() { signature.NewSignature(data600[:L], code) })
-			guard("signature.NewSignatureFromBytes", code, fmt.Sprintf("len=%d", L), func() { signature.NewSignatureFromBytes(data600[:L], code) })
+			guard("signature.ReadSignature", code, fmt.Sprintf("len=%d", L), func() { signature.ReadSignature(data600[:L:L], code) })
+			guard("signature.NewSignature", code, fmt.Sprintf("len=%d", L), func() { signature.NewSignature(data600[:L:L], code) })
+			guard("signature.NewSignatureFromBytes", code, fmt.Sprintf("len=%d", L), func() { signature.NewSignatureFromBytes(data600[:L:L], code) })
 		}
 		guard("signature.SignatureSize", code, "", func() { signature.SignatureSize(code) })
 		guard("signature.SignatureSize", -code-1, "", func() { signature.SignatureSize(-code - 1) })
@@ -188,31 +188,41 @@ func c04TypeSweeps(r *core.Run) {
 				offline_signature.ReadOfflineSignature(in, uint16(code))
 			})
 		}
-		for _, kl := range []int{0, si.PubLen - 1, si.PubLen, si.PubLen + 1, 32} {
+		kls := []int{0, si.PubLen - 1, si.PubLen, si.PubLen + 1, 32}
+		if _, known := refmodel.SigTable[code]; known || code < 32 {
+			// every length up to past the padded 128-byte field and the widest key for the assigned codes
+			kls = kls[:0]
+			for n := 0; n <= 600; n++ {
+				if n <= 140 || n%8 == 0 || (n >= si.PubLen-2 && n <= si.PubLen+2) {
+					kls = append(kls, n)
+				}
+			}
+		}
+		for _, kl := range kls {
 			if kl < 0 {
 				continue
 			}
 			guard("offline_signature.NewOfflineSignature", code, fmt.Sprintf("keylen=%d", kl), func() {
-				o, err := offline_signature.NewOfflineSignature(1, uint16(code), data600[:kl], data600[:64], 7)
+				o, err := offline_signature.NewOfflineSignature(1, uint16(code), data600[:kl:kl], data600[:64:64], 7)
 				if err == nil {
 					o.Bytes()
 					o.ValidateStructure()
-					o.VerifySignature(data600[:32])
+					o.VerifySignature(data600[:32:32])
 					_ = o.String()
 				}
-				o2, err := offline_signature.NewOfflineSignature(1, 7, data600[:32], data600[:kl], uint16(code))
+				o2, err := offline_signature.NewOfflineSignature(1, 7, data600[:32:32], data600[:kl:kl], uint16(code))
 				if err == nil {
 					o2.Bytes()
-					o2.VerifySignature(data600[:32])
+					o2.VerifySignature(data600[:32:32])
 				}
 			})
 			guard("key_certificate.ConstructSigningPublicKeyByType", code, fmt.Sprintf("len=%d", kl), func() {
-				k, err := key_certificate.ConstructSigningPublicKeyByType(data600[:kl], code)
+				k, err := key_certificate.ConstructSigningPublicKeyByType(data600[:kl:kl], code)
 				if err == nil && k != nil {
 					k.Len()
 					k.Bytes()
 					if v, err := k.NewVerifier(); err == nil && v != nil {
-						v.Verify(data600[:10], data600[:si.SigLen])
+						v.Verify(data600[:10:10], data600[:si.SigLen:si.SigLen])
 					}
 				}
 			})
@@ -231,7 +241,7 @@ func c04TypeSweeps(r *core.Run) {
 				certificate.GetCryptoTypeFromCertificate(*c)
 			}
 			certificate.BuildKeyTypePayload(code, -code)
-			certificate.NewCertificateWithType(uint8(code), data600[:code%80])
+			certificate.NewCertificateWithType(uint8(code), data600[:code%80:code%80])
 		})
 		// identities declaring every signing code (crypto 0 and 4) and every crypto code (signing 7 and 0)
 		for _, pair := range [][2]int{{code, 0}, {code, 4}, {7, code}, {0, code}} {
@@ -244,7 +254,7 @@ func c04TypeSweeps(r *core.Run) {
 				}
 			})
 			if code < 16 || code%4096 == 0 {
-				ex := append(append([]byte(nil), in...), data600[:8]...)
+				ex := append(append([]byte(nil), in...), data600[:8:8]...)
 				ex[386] = 12 // declared payload 12: types + 8 excess bytes
 				guard("keys_and_cert.ReadKeysAndCert", code, fmt.Sprintf("pair=%d/%d excess=8", pair[0], pair[1]), func() { keys_and_cert.ReadKeysAndCert(ex) })
 			}
@@ -253,11 +263,11 @@ func c04TypeSweeps(r *core.Run) {
 	for size := -2; size <= 10; size++ {
 		for _, L := range []int{0, 1, 7, 8, 9} {
 			guard("data.ReadInteger", size, fmt.Sprintf("len=%d", L), func() {
-				i, _ := data.ReadInteger(data600[:L], size)
+				i, _ := data.ReadInteger(data600[:L:L], size)
 				i.Int()
 				i.IntSafe()
 				i.UintSafe()
-				data.NewInteger(data600[:L], size)
+				data.NewInteger(data600[:L:L], size)
 			})
 		}
 		for _, v := range []int{-1, 0, 1, 255, 256, 1 << 40, int(^uint(0) >> 1)} {
@@ -265,7 +275,7 @@ func c04TypeSweeps(r *core.Run) {
 		}
 	}
 	for L := 0; L <= 10; L++ {
-		guard("data.DecodeIntN", L, "", func() { data.DecodeIntN(data600[:L]) })
+		guard("data.DecodeIntN", L, "", func() { data.DecodeIntN(data600[:L:L]) })
 	}
 	// base32 / base64 decoders
 	texts := []string{""}
